@@ -437,6 +437,17 @@ def check_proto(mp, label):
                         raise
                     except Exception:
                         pass
+            if isinstance(mp, onnx.ModelProto):
+                # the tensor-level entry point with a base directory given (a relative one that does not exist): same promise
+                for tp in list(mp.graph.initializer)[:8]:
+                    if tp.data_location == onnx.TensorProto.EXTERNAL:
+                        try:
+                            t = ir.serde.deserialize_tensor(tp, "c17_base/sub")
+                            t.name, t.dtype, t.shape, t.size
+                        except _Timeout:
+                            raise
+                        except Exception:
+                            pass
             events = list(ev)
         if events:
             fails.append((f"file-access/{events[0][0]}", f"{label}: deserialization/inspection touched the file system: {events[:4]}"))
